@@ -88,6 +88,21 @@ def eager_fields(prog):
                 while isinstance(f0, tuple) and f0 and f0[0] == "call" and f0[1].name in ("new", "from", "into") and \
                         len(f0[2]) == 1 and not f0[1].local:
                     f0 = strip(f0[2][0])          # the value behind a cell / box constructor
+                arith = isinstance(f0, tuple) and f0 and (f0[0] == "bin" or (f0[0] == "field" and f0[2] == "0" and
+                                                                            isinstance(f0[1], tuple) and f0[1] and f0[1][0] == "bin"))
+                if arith:
+                    # `mask: cap - 1` beside `cap: cap` — arithmetic on the very value (a named constant included) stored in G
+                    bj = f0 if f0[0] == "bin" else f0[1]
+                    for i, fi in enumerate(t[4]):
+                        g0 = strip(fi)
+                        if i == j or not isinstance(g0, tuple) or not g0 or g0[0] == "agg" or \
+                                (g0[0] == "const" and str(g0[2]) in ("0", "1", "true", "false")):
+                            continue
+                        if g0 in (strip(bj[2]), strip(bj[3])):
+                            out.setdefault(t[2], {}).setdefault(t[5][j], [])
+                            if t[5][i] not in out[t[2]][t[5][j]]:
+                                out[t[2]][t[5][j]].append(t[5][i])
+                    continue
                 if not (isinstance(f0, tuple) and f0 and f0[0] == "call") or f0[1].name in ("clone", "new", "default", "to_vec", "to_owned", "into", "from"):
                     continue
                 kj = key_of(f0)
